@@ -591,6 +591,8 @@ impl Check for C03 {
 
 #[derive(Clone, Debug, Serialize, Deserialize)]
 pub enum C04Case {
+    /// `bigbedtobed --chrom/--start/--end` and `bigtools intersect` on the built binaries
+    Tool(BedCase),
     Ranges(BedCase),
     Histories { file: BedCase, depth: usize, cached: bool },
 }
@@ -932,10 +934,34 @@ impl Check for C04 {
                 })
             })
         });
-        Box::new(singles.chain(multi).chain(hist))
+        let o4 = opts.clone();
+        let tools = (0..3usize).flat_map(move |si| {
+            let o4 = o4.clone();
+            (0..8usize).step_by(if quick { 2 } else { 1 }).map(move |li| {
+                let sets = chrom_sets();
+                let (names, ooo, extra) = sets[si].clone();
+                let core = core_bed_layouts();
+                C04Case::Tool(BedCase {
+                    chroms: names
+                        .iter()
+                        .enumerate()
+                        .map(|(ci, n)| BChrom { name: n.to_string(), len: L, items: bed_items(&core[(li + ci * 3) % core.len()], li + ci + 1) })
+                        .collect(),
+                    extra_sizes: extra.clone(),
+                    allow_ooo: ooo,
+                    autosql: None,
+                    opts: o4[(li + si) % 6].clone(),
+                })
+            })
+        });
+        Box::new(singles.chain(multi).chain(hist).chain(tools))
     }
     fn run(&self, case: &C04Case, out: &mut Outcome) {
         match case {
+            C04Case::Tool(c) => {
+                out.nontrivial = true;
+                crate::clifam::c04_tool(c, out);
+            }
             C04Case::Ranges(c) => {
                 let Some(bytes) = do_write_bed(c, out) else { return };
                 if let Ok(d) = indep::decode(&bytes) {
